@@ -623,7 +623,10 @@ def containers_used(op, variant):
                     out.add("vote-map key class as %s%s" % (type(c).__name__, " (multi-member)" if len(c) > 1 else ""))
         return sorted(out)
     if k == K_ORDER:
-        return ["append_order given a " + ["tuple", "list", "numpy array", "range"][variant % 4]]
+        v = variant % 4
+        if v == 3 and not (d and list(d) == list(range(d[0], d[0] + len(d)))):
+            v = 0
+        return ["append_order given a " + ["tuple", "list", "numpy array", "range"][v]]
     if k == K_LIST and d:
         return ["append_order_list variant %d" % (variant % 7)]
     return []
